@@ -33,10 +33,11 @@ def write_vasprun(path, T=3, scale=None):
     for t in range(T):
         b = basis*(1+0.01*t) if scale else basis
         out.append(' <calculation>')
-        out.append(structure_xml('', b, np.mod(pos+0.03125*t,1)))
+        # atoms drift across the cell faces and are written unwrapped, as an MD code may do
+        out.append(structure_xml('', b, pos + np.array([[0.21, -0.13, 0.0], [0.0, 0.17, 0.19], [-0.11, 0.0, 0.0]]) * t))
         out.append('  <energy>\n   <i name="e_fr_energy">    -10.0 </i>\n   <i name="e_wo_entrp">    -10.0 </i>\n   <i name="e_0_energy">    -10.0 </i>\n  </energy>')
         out.append(' </calculation>')
-    out.append(structure_xml('finalpos', basis, np.mod(pos+0.03125*(T-1),1)))
+    out.append(structure_xml('finalpos', basis, pos + np.array([[0.21, -0.13, 0.0], [0.0, 0.17, 0.19], [-0.11, 0.0, 0.0]]) * (T - 1)))
     out.append('</modeling>')
     Path(path).parent.mkdir(exist_ok=True, parents=True)
     Path(path).write_text('\n'.join(out)+'\n')
@@ -71,6 +72,6 @@ Atoms
     for t in range(T):
         lines.append('3')
         lines.append(f'Atoms. Timestep: {t}')
-        for el, p in zip(['Li', 'Li', 'S'], pos + 0.125 * t):
+        for el, p in zip(['Li', 'Li', 'S'], pos + np.array([[1.7, -0.9, 0.0], [0.0, 2.3, 1.9], [-1.3, 0.0, 0.0]]) * t):
             lines.append(f'{el} {p[0]:.6f} {p[1]:.6f} {p[2]:.6f}')
     (d / 'traj.xyz').write_text('\n'.join(lines) + '\n')
